@@ -376,4 +376,49 @@ func init() {
 		File: "merge.go", Old: "	for _, k := range sortedKeys(dict) {\n		v := dict[k]\n", New: "	for _, k := range sortedKeys(dict) {\n		v := to.fields.d[k]\n		if v == nil {\n			v = dict[k]\n		}\n", Expect: "R01d/ucfg.mergeConfigDict/per-key store"})
 	addControl(control{Prop: "C01", Name: "dict-loop-as-map-range", Rule: "R01d", Kind: "refactor",
 		File: "merge.go", Old: "	for _, k := range sortedKeys(dict) {\n		v := dict[k]\n", New: "	for k, v := range dict {\n"})
+	// ---------------- C06 ----------------
+	addControl(control{Prop: "C06", Name: "reader-ignores-tag-name", Rule: "R06a", Kind: "mutant", Quick: true,
+		File: "util.go", Old: "		name:          fieldName(name, stField.Name),", New: "		name:          fieldName(name[:0], stField.Name),", Expect: "R06a/writer/reader/field key"})
+	addControl(control{Prop: "C06", Name: "writer-stores-ignored-fields", Rule: "R06a", Kind: "mutant", Quick: true,
+		File: "merge.go", Old: "		name, tagOpts := parseTags(stField.Tag.Get(opts.tag))\n		if tagOpts.ignore {\n			continue\n		}\n", New: "		name, tagOpts := parseTags(stField.Tag.Get(opts.tag))\n", Expect: "R06a/writer/reader/participation conditions"})
+	addControl(control{Prop: "C06", Name: "reader-fixed-tag-name", Rule: "R06a", Kind: "mutant",
+		File: "util.go", Old: "	name, tagOpts := parseTags(stField.Tag.Get(opts.tag))\n	if tagOpts.ignore {\n		return fieldInfo{}, true, nil", New: "	name, tagOpts := parseTags(stField.Tag.Get(\"config\"))\n	if tagOpts.ignore {\n		return fieldInfo{}, true, nil", Expect: "R06a/writer/reader/field key"})
+	addControl(control{Prop: "C06", Name: "writer-pairs-key-with-other-field", Rule: "R06a", Kind: "mutant",
+		File: "merge.go", Old: "			err = normalizeSetField(cfg, opts, tagOpts, name, v.Field(i))", New: "			err = normalizeSetField(cfg, opts, tagOpts, name, v.Field(numField-1-i))", Expect: "R06a/writer/reader/field"})
+	addControl(control{Prop: "C06", Name: "unpack-reads-skipped-fields", Rule: "R06a", Kind: "mutant",
+		File: "reify.go", Old: "			if skip {\n				continue\n			}\n\n			if fInfo.tagOptions.squash {", New: "			_ = skip\n\n			if fInfo.tagOptions.squash {", Expect: "R06a/ucfg.reifyStruct/skip honoured"})
+	addControl(control{Prop: "C06", Name: "writer-lowercases-tag-name", Rule: "R06a", Kind: "mutant",
+		File: "merge.go", Old: "			name = fieldName(name, stField.Name)\n", New: "			name = fieldName(name, stField.Name)\n			if len(name) > 0 && unicode.IsUpper(rune(name[0])) {\n				name = string(unicode.ToLower(rune(name[0]))) + name[1:]\n			}\n", Expect: "R06a/writer/reader/field key"})
+	addControl(control{Prop: "C06", Name: "reader-parses-name-without-separator", Rule: "R06p", Kind: "mutant", Quick: true,
+		File: "reify.go", Old: "	p := parsePathWithOpts(name, opts.opts)\n	value, err := p.GetValue(cfg, opts.opts)", New: "	p := parsePath(name, \"\", opts.opts.maxIdx, opts.opts.enableNumKeys, opts.opts.escapePath)\n	value, err := p.GetValue(cfg, opts.opts)", Expect: "R06p/"})
+	addControl(control{Prop: "C06", Name: "inline-map-rejected-on-unpack", Rule: "R06d", Kind: "mutant", Quick: true,
+		File: "reify.go", Old: "				case reflect.Struct, reflect.Map:\n					if err := reifyInto(fInfo.options, fInfo.value, cfg); err != nil {", New: "				case reflect.Struct:\n					if err := reifyInto(fInfo.options, fInfo.value, cfg); err != nil {", Expect: "R06d/writer/reader/inline kind Map"})
+	addControl(control{Prop: "C06", Name: "regexp-missing-from-extras", Rule: "R06b", Kind: "mutant", Quick: true,
+		File: "reify.go", Old: "		tDuration: reifyDuration,\n		tRegexp:   reifyRegexp,\n", New: "		tDuration: reifyDuration,\n", Expect: "R06b/writer/reader/special type tRegexp"})
+	addControl(control{Prop: "C06", Name: "duration-written-as-number", Rule: "R06b", Kind: "mutant",
+		File: "merge.go", Old: "	case tDuration:\n		d := v.Interface().(time.Duration)\n		return newString(ctx, opts.meta, d.String()), nil\n", New: "	case reflect.TypeOf(time.Time{}):\n", Expect: "R06b/writer/reader/special type tDuration"})
+	addControl(control{Prop: "C06", Name: "regexp-read-back-posix", Rule: "R06b", Kind: "mutant",
+		File: "reify.go", Old: "	r, err := regexp.Compile(s)", New: "	r, err := regexp.CompilePOSIX(s)", Expect: "R06b/writer/reader/encoding of tRegexp"})
+	addControl(control{Prop: "C06", Name: "numeric-kinds-before-extras", Rule: "R06b", Kind: "mutant",
+		File: "reify.go", Old: "	case extras[baseType] != nil:\n		v, err := extras[baseType](opts, val, baseType)\n		if err != nil {\n			return v, err\n		}\n		return v, nil\n\n	case isInt(kind):\n		v, err := reifyInt(opts, val, baseType)\n		if err != nil {\n			return v, err\n		}\n		return v, nil\n",
+		New: "	case isInt(kind):\n		v, err := reifyInt(opts, val, baseType)\n		if err != nil {\n			return v, err\n		}\n		return v, nil\n\n	case extras[baseType] != nil:\n		v, err := extras[baseType](opts, val, baseType)\n		if err != nil {\n			return v, err\n		}\n		return v, nil\n", Expect: "R06b/ucfg.doReifyPrimitive/extras before isInt"})
+	addControl(control{Prop: "C06", Name: "reader-drops-int16", Rule: "R06c", Kind: "mutant", Quick: true,
+		File: "util.go", Old: "	case reflect.Int, reflect.Int8, reflect.Int16, reflect.Int32, reflect.Int64:\n		return true", New: "	case reflect.Int, reflect.Int8, reflect.Int32, reflect.Int64:\n		return true", Expect: "R06c/writer/reader/kind Int16"})
+	addControl(control{Prop: "C06", Name: "writer-drops-uint8", Rule: "R06c", Kind: "mutant",
+		File: "merge.go", Old: "	case reflect.Uint, reflect.Uint8, reflect.Uint16, reflect.Uint32, reflect.Uint64:\n		return newUint(ctx, opts.meta, v.Uint()), nil", New: "	case reflect.Uint, reflect.Uint16, reflect.Uint32, reflect.Uint64:\n		return newUint(ctx, opts.meta, v.Uint()), nil", Expect: "R06c/ucfg.normalizeValue/writer accepts Uint8"})
+	addControl(control{Prop: "C06", Name: "writer-stores-bool-as-number", Rule: "R06c", Kind: "mutant",
+		File: "merge.go", Old: "		return newBool(ctx, opts.meta, v.Bool()), nil", New: "		if v.Bool() {\n			return newUint(ctx, opts.meta, 1), nil\n		}\n		return newUint(ctx, opts.meta, 0), nil", Expect: "R06c/writer/reader/kind Bool"})
+	addControl(control{Prop: "C06", Name: "merge-value-without-array-case", Rule: "R06c", Kind: "mutant",
+		File: "reify.go", Old: "	case reflect.Array:\n		return reifyArray(opts, old, baseType, val)\n\n", New: "", Expect: "R06c/writer/reader/kind Array"})
+	addControl(control{Prop: "C06", Name: "uint-never-reads-as-int", Rule: "R06e", Kind: "mutant",
+		File: "types.go", Old: "	return int64(c.u), nil", New: "	return 0, ErrTypeMismatch", Expect: "R06e/(*ucfg.cfgUint).toInt"})
+	addControl(control{Prop: "C06", Name: "reader-name-in-local", Rule: "R06a", Kind: "refactor", Quick: true,
+		File: "util.go", Old: "	return fieldInfo{\n		name:          fieldName(name, stField.Name),", New: "	key := fieldName(name, stField.Name)\n	return fieldInfo{\n		name:          key,"})
+	addControl(control{Prop: "C06", Name: "writer-helper-extracted", Rule: "R06a", Kind: "refactor", Quick: true,
+		File: "merge.go", Old: "		name, tagOpts := parseTags(stField.Tag.Get(opts.tag))\n		if tagOpts.ignore {\n			continue\n		}\n", New: "		name, tagOpts := structFieldTags(stField, opts.tag)\n		if tagOpts.ignore {\n			continue\n		}\n",
+		More: []edit{{File: "merge.go", Old: "func normalizeSetField(\n", New: "func structFieldTags(f reflect.StructField, tag string) (string, tagOptions) {\n	return parseTags(f.Tag.Get(tag))\n}\n\nfunc normalizeSetField(\n"}}})
+	addControl(control{Prop: "C06", Name: "int-predicate-by-range", Rule: "R06c", Kind: "refactor",
+		File: "util.go", Old: "func isInt(k reflect.Kind) bool {\n	switch k {\n	case reflect.Int, reflect.Int8, reflect.Int16, reflect.Int32, reflect.Int64:\n		return true\n	default:\n		return false\n	}\n}", New: "func isInt(k reflect.Kind) bool {\n	return reflect.Int <= k && k <= reflect.Int64\n}"})
+	addControl(control{Prop: "C06", Name: "unpack-loop-renamed", Rule: "R06a", Kind: "refactor",
+		File: "reify.go", Old: "				fopts := fieldOptions{opts: fInfo.options, tag: fInfo.tagOptions, validators: fInfo.validatorTags}\n				if err := reifyGetField(cfg, fopts, fInfo.name, fInfo.value, fInfo.ftype); err != nil {\n					return err\n				}", New: "				key, target := fInfo.name, fInfo.value\n				fopts := fieldOptions{opts: fInfo.options, tag: fInfo.tagOptions, validators: fInfo.validatorTags}\n				err := reifyGetField(cfg, fopts, key, target, fInfo.ftype)\n				if err != nil {\n					return err\n				}"})
 }
